@@ -162,6 +162,14 @@ def dispatch(repo: Repo) -> List[Ob]:
         missing, extra = sorted(set(members) - set(arms)), sorted(set(arms) - set(members))
         (obs.append(ok("DISPATCH", co, "arms-cover-members", P, co.node, f"{len(members)} members, one arm each")) if not missing and not extra else
          obs.append(bad("DISPATCH", co, "arms-cover-members", P, co.node, f"operator dispatch of {ename}: members without an arm {missing}, arms naming no member {extra}")))
+        # the constructors receive the caller's parameters: the dispatch does not rewrite kwargs on the way
+        rewrites = [x for x in walk_no_nested(co.node) if (isinstance(x, ast.Subscript) and isinstance(x.ctx, (ast.Store, ast.Del)) and src(x.value) == "kwargs")
+                    or (isinstance(x, ast.Name) and x.id == "kwargs" and isinstance(x.ctx, ast.Store))
+                    or (isinstance(x, ast.Call) and method_call(x) and src(method_call(x)[0]) == "kwargs" and method_call(x)[1] in ("update", "pop", "setdefault", "clear", "popitem"))]
+        (obs.append(bad("DISPATCH", co, "parameters-unchanged", P + ("C15",), rewrites[0],
+                        f"`{src(rewrites[0])[:50]}`: the dispatch rewrites a parameter before the constructor receives it – the operator is no longer that of the value the caller gave "
+                        "(and the caller's dictionary is modified)")) if rewrites else
+         obs.append(ok("DISPATCH", co, "parameters-unchanged", P + ("C15",), co.node, "kwargs are handed to the constructors as given")))
         # fall-through raises: no path leaves the function without `return <value>`, and a raise is reachable
         from ..cfg import CFG
         cfgd = CFG(co.node)
